@@ -31,6 +31,10 @@ def concretise(c):
             proj = [l for l in base if "ASAP2_VERSION" not in l]
             base = base + proj
         return docgen.text_of(base)
+    if k == "multi":
+        return multi_document(c["faults"])
+    if k == "skip":
+        return skip_documents(c)[1]
     e = c["e"]
     el = EL[e]
     ppath = docgen.PATHS[e][:-1]
@@ -127,6 +131,135 @@ def concretise(c):
     raise ValueError(f"unknown case kind {k}")
 
 
+MEAS = '/begin MEASUREMENT {name} {longid} {dt} NO_COMPU_METHOD 1 1.0 0 255'
+
+
+def multi_document(faults):
+    """a document with several recoverable problems of different classes, one per element / line"""
+    f = set(faults)
+    toonew = bool(f & {"toonew_block", "toonew_enum"})
+    ver = ("1", "60") if toonew else ("1", "71")
+    lines = []
+    if "badversion" in f and not toonew:
+        lines.append("ASAP2_VERSION 1 99")
+    else:
+        lines.append(f"ASAP2_VERSION {ver[0]} {ver[1]}")
+    lines.append('/begin PROJECT p ""')
+    if "norepeated" in f:
+        lines.append("/end PROJECT")
+        if "trailing" in f:
+            lines.append("trailing_token 1")
+        return "\n".join(lines) + "\n"
+    lines.append('  /begin MODULE m ""')
+
+    def meas(name, longid='""', dt="UBYTE", extra=(), end="MEASUREMENT"):
+        out = ["    " + MEAS.format(name=name, longid=longid, dt=dt)]
+        out += ["      " + x for x in extra]
+        out.append(f"    /end {end}")
+        return out
+    lines += meas("m_ok")
+    if "unknown" in f:
+        lines += meas("m_unknown", extra=["UNKNOWN_KEYWORD_X 1 2"])
+    if "toomany" in f:
+        lines += meas("m_toomany", extra=["BIT_MASK 0x1", "BIT_MASK 0x2"])
+    if "strforid" in f:
+        lines += meas("m_strforid", longid="an_identifier_instead_of_a_string")
+    if "badident" in f:
+        lines += meas("1digit_first")
+    if "toonew_block" in f:
+        lines.append('    /begin BLOB b1 "" 0x0 4')
+        lines.append("    /end BLOB")
+    if "toonew_enum" in f:
+        lines += meas("m_toonew_enum", dt="FLOAT16_IEEE")
+    if "wrongend" in f:
+        lines += meas("m_wrongend", end="WRONG_TAG")
+    if "deprecated" in f and not toonew:
+        lines += meas("m_deprecated", extra=["ARRAY_SIZE 3"])
+    lines.append("  /end MODULE")
+    lines.append("/end PROJECT")
+    if "trailing" in f:
+        lines.append("trailing_token 1")
+    return "\n".join(lines) + "\n"
+
+
+PAYLOADS = {
+    "kw0": [["UNKNOWN_X"]],
+    "kw_num": [["UNKNOWN_X", "1", "0x2", "3.5"]],
+    "kw_str_ident": [["UNKNOWN_X", '"a string"', "an_identifier"]],
+    "kw3": [["UNKNOWN_X", "1"], ["  ", '"continued"', "third"]],
+    "blk_empty": [["/begin", "UNKNOWN_X", "/end", "UNKNOWN_X"]],
+    "blk_scalars": [["/begin", "UNKNOWN_X", "1", '"s"', "ident", "/end", "UNKNOWN_X"]],
+    "blk_nested1": [["/begin", "UNKNOWN_X", "1"], ["  ", "/begin", "INNER_Y", "2", "/end", "INNER_Y"], ["/end", "UNKNOWN_X"]],
+    "blk_nested2": [["/begin", "UNKNOWN_X"], ["  ", "/begin", "INNER_Y"], ["  ", "  ", "/begin", "INNER_Z", "3", "/end", "INNER_Z"],
+                    ["  ", "/end", "INNER_Y"], ["/end", "UNKNOWN_X"]],
+    "blk_known_inside": [["/begin", "UNKNOWN_X"], ["  ", "/begin", "ANNOTATION", "/end", "ANNOTATION"], ["  ", "IF_DATA", "FORMAT", '"%3"'], ["/end", "UNKNOWN_X"]],
+    "blk_comment": [["/begin", "UNKNOWN_X", "/* a block comment */", "1"], ["  ", "// a line comment"], ["/end", "UNKNOWN_X"]],
+    "kw_comment": [["UNKNOWN_X", "1", "/* a block comment */", "2"]],
+    "blk_unbalanced_inner_kw": [["/begin", "UNKNOWN_X", "KEYWORD_INSIDE", "5", "UNKNOWN_X_NOT_END", "/end", "UNKNOWN_X"]],
+}
+
+
+def skip_documents(c):
+    """(base text, text with the unknown payload, applicable) for a C07 case; the payload sits between the
+    sub-elements of the target block: nkids sub-elements, inserted before sub-element number `at`"""
+    e = c["e"]
+    el = EL[e]
+    ver = docgen.best_version(e)
+    # candidate sub-elements: not ending in an open identifier list (a bare keyword payload behind such a
+    # list is excluded by the property), valid in the version, not the special ones
+    cands = []
+    for kd in el["children"]:
+        ce = EL.get(kd["tag"])
+        if ce is None or not docgen.in_version(kd, ver) or kd["tag"] in ("A2ML",):
+            continue
+        last = ce["params"][-1] if ce["params"] else None
+        open_list = bool(last and "seq" in last)
+        if ce["form"] == "keyword" and open_list:
+            continue
+        cands.append(kd)
+    required = [kd for kd in el["children"] if kd["required"]]
+    chosen = []
+    want = max(c["nkids"], len(required))
+    for kd in required + cands:
+        if len(chosen) >= want:
+            break
+        if kd["tag"] not in [x["tag"] for x in chosen]:
+            chosen.append(kd)
+    if len(chosen) < c["nkids"]:
+        return None, None, False
+    # exclusion of the property: no bare keyword payload directly behind an open-ended identifier list
+    # (here: the parameter list of the enclosing block itself ends in one)
+    lastp = el["params"][-1] if el["params"] else None
+    if c["at"] == 0 and c["payload"].startswith("kw") and lastp and "seq" in lastp and lastp["seq"][0]["type"] == "ident":
+        return None, None, False
+    tags = [kd["tag"] for kd in chosen]
+
+    def make(with_payload):
+        def hook(tag, path, part, default):
+            if tag == e and path == docgen.PATHS[e][:-1]:
+                if part[0] == "kidcount":
+                    return 1 if part[1] in tags else 0
+                if part == ("body", None):
+                    head, kids = default[:1], default[1:]
+                    # group the rendered lines per sub-element
+                    groups, cur = [], []
+                    for l in kids:
+                        toks = [t for t in l if t != "  "]
+                        if len(l) - len(toks) == 1 and cur and (toks[:1] == ["/begin"] or toks[0] in tags):
+                            groups.append(cur)
+                            cur = []
+                        cur.append(l)
+                    if cur:
+                        groups.append(cur)
+                    if with_payload:
+                        at = min(c["at"], len(groups))
+                        groups = groups[:at] + [[["  "] + l for l in PAYLOADS[c["payload"]]]] + groups[at:]
+                    return head + [l for g in groups for l in g]
+            return default
+        return docgen.text_of(docgen.document(e, ver, hook, target_mode="min"))
+    return make(False), make(True), True
+
+
 def run_loads(binp, docs, tag, want=("tokens", "tree"), a2ml=None, timeout=3000):
     """docs: list of (text, strict); returns the list of load-op results"""
     inp = os.path.join(vlib.scratch(), f"loadop_{tag}.ndjson")
@@ -137,6 +270,18 @@ def run_loads(binp, docs, tag, want=("tokens", "tree"), a2ml=None, timeout=3000)
         vlib.tool_error(f"load-op failed rc={rc}: {err[-600:]}")
     with open(outp) as f:
         return [json.loads(l) for l in f if l.strip()]
+
+
+LAYOUT_KEYS = ("line", "uid", "start_offset", "end_offset", "incfile")
+
+
+def strip_layout(t):
+    """Debug trees of IF_DATA content carry layout data (line, uid, offsets); not part of the model's equality"""
+    if isinstance(t, dict):
+        return {k: strip_layout(v) for k, v in t.items() if k not in LAYOUT_KEYS}
+    if isinstance(t, list):
+        return [strip_layout(x) for x in t]
+    return t
 
 
 def outcome_of(r):
@@ -227,7 +372,7 @@ def pair_event(rs, rn, no_ifdata=True):
     """C06: the strict and the lenient outcome of the same document"""
     if any("panic" in r or "ok" not in r for r in (rs, rn)):
         return None
-    model_eq = bool(rs.get("ok") and rn.get("ok") and rs.get("tree") == rn.get("tree"))
+    model_eq = bool(rs.get("ok") and rn.get("ok") and strip_layout(rs.get("tree")) == strip_layout(rn.get("tree")))
     return {"pair": True, "s": outcome_of(rs), "n": outcome_of(rn), "modelEq": model_eq, "noIfData": no_ifdata}
 
 
